@@ -396,6 +396,27 @@ pub fn run(mut run: Run) -> i32 {
         let off = if idx % 2 == 0 { 0.0 } else { 1e6 };
         tri_checks(acc, idx, p, touch, off);
     });
+    // the same polygons scaled by 2^-8 and 2^-12 (exact): vertex spacing 3.9e-3 / 2.4e-4, i.e. between the documented Delaunay snap radius (1e-4) and
+    // ordinary sizes - vertices this far apart must stay distinct. Triangles are scaled back exactly and judged on the lattice.
+    {
+        let sstep = if quick { 4 } else { 1 };
+        let subp: Vec<&(Poly, bool)> = ps.iter().step_by(sstep).collect();
+        let nsp = subp.len();
+        run.stage("triangulations-small-scale", nsp * 2, |idx, acc| {
+            let (p, touch) = subp[idx / 2];
+            let sc: f64 = if idx % 2 == 0 { 1.0 / 256.0 } else { 1.0 / 4096.0 };
+            let pg = poly(p).map_coords(|c| Coord { x: c.x * sc, y: c.y * sc });
+            let back = |t: Vec<Triangle<f64>>| -> Vec<Triangle<f64>> { t.into_iter().map(|t| Triangle(Coord { x: t.0.x / sc, y: t.0.y / sc }, Coord { x: t.1.x / sc, y: t.1.y / sc }, Coord { x: t.2.x / sc, y: t.2.y / sc })).collect() };
+            acc.class(format!("small-scale n{} holes{} touch{} scale{}", p.shell.len(), p.holes.len(), touch, sc));
+            let pg0 = poly(p);
+            if !touch {
+                check_tris(acc, idx, "earcut_triangles[small scale]", p, &pg0, guard(|| pg.earcut_triangles()).map(back), false, 0.0);
+            }
+            check_tris(acc, idx, "constrained_triangulation[small scale]", p, &pg0, guard(|| TriangulateDelaunay::constrained_triangulation(&pg, DelaunayTriangulationConfig::default())).and_then(|r| r.map_err(|e| format!("{:?}", e))).map(back), false, 0.0);
+            check_tris(acc, idx, "constrained_outer_triangulation[small scale]", p, &pg0, guard(|| TriangulateDelaunay::constrained_outer_triangulation(&pg, DelaunayTriangulationConfig::default())).and_then(|r| r.map_err(|e| format!("{:?}", e))).map(back), true, 0.0);
+            check_tris(acc, idx, "unconstrained_triangulation[small scale]", p, &pg0, guard(|| TriangulateDelaunay::unconstrained_triangulation(&pg)).and_then(|r| r.map_err(|e| format!("{:?}", e))).map(back), true, 0.0);
+        });
+    }
     // monotone subdivision
     run.stage("monotone", n, |idx, acc| {
         let (p, touch) = &ps[idx];
